@@ -113,6 +113,10 @@ pub struct Shared {
     pub ranges: RefCell<Vec<(i64, i64)>>,
     /// > 0 while a finally block entered by a propagating exception is running (any fiber)
     pub pending_finally: Cell<u32>,
+    /// a finally block was left by return/break/continue while an exception was in flight: yarel keeps
+    /// its 'exception in flight' flag set until the next catch (recorded finding E11); the finding
+    /// manifests when another finally block then runs to its end in the same run
+    pub e11_armed: Cell<bool>,
     pub fibers: RefCell<Vec<Rc<FiberObj>>>,
     pub cells: RefCell<Vec<VCell>>,
     pub instances: RefCell<Vec<Rc<Instance>>>,
@@ -696,6 +700,7 @@ impl Ctx {
         }
         if let Err(Ctl::Throw(_)) = &r {
             if let Some((name, cbody)) = catch {
+                sh.e11_armed.set(false);
                 let t = match std::mem::replace(&mut r, Ok(())) {
                     Err(Ctl::Throw(t)) => t,
                     _ => unreachable!(),
@@ -744,6 +749,14 @@ impl Ctx {
             let fr = self.exec_block(f, env, sc, false);
             if pending_throw {
                 sh.pending_finally.set(sh.pending_finally.get() - 1);
+            }
+            if fr.is_ok() && sh.e11_armed.get() {
+                // this finally block reaches its end while the stale flag is set
+                sh.event("E11");
+            }
+            if pending_throw && matches!(fr, Err(Ctl::Return(_)) | Err(Ctl::Break) | Err(Ctl::Continue)) {
+                sh.event("finally_swallows");
+                sh.e11_armed.set(true);
             }
             if let Err(e) = fr {
                 if r.is_err() {
